@@ -227,6 +227,19 @@ func runC04(r *Run, p *Prog) {
 		if !found {
 			r.Ob("T2", shortName(hm), "the split index is tested against 0", hm.Pos(), false, "no edge on which LastIndex(method, \".\") <= 0: method strings without interface part are not rejected")
 		}
+		// ... and only there: every other method string is routed by its two parts, whatever they are (an empty method
+		// name after a trailing dot, an interface name with empty components)
+		for _, b := range hm.Blocks {
+			for _, in := range b.Instrs {
+				c, isCall := in.(*ssa.Call)
+				if !isCall || calleeName(&c.Call) != "varlink.Call.ReplyInvalidParameter" || len(c.Call.Args) != 3 || T.T(c.Call.Args[2]) != `const:"method"` {
+					continue
+				}
+				_, hi := intervalOf(T.FactsAt(b), R)
+				r.Ob("T2", shortName(hm), "InvalidParameter(\"method\") is sent only for a method string without interface part", c.Pos(), hi <= 0,
+					"the refusal is also reached when LastIndex(method, \".\") > 0: a method string that has an interface part is refused instead of being routed by its two parts")
+			}
+		}
 	})
 	r.Guard("T4", func() {
 		// exactly one delivery after a successful decode; zero on the decode-error edge (T6)
